@@ -4,7 +4,7 @@
    FIN/RSV/opcode/mask combination, every length form, every payload - in every reassembly state, both roles,
    compression negotiated or not.  The UTF-8 validator, the inflater and the LZ77 window are parameters. *)
 From Gws Require Import Lib.Base Spec.MaskSpec Spec.Rfc6455 Spec.Rfc6455Recv Model.Header Model.CloseCode Model.Reader
-  Proofs.FrameProofs Proofs.ReaderProofs Proofs.ReaderRefine Proofs.FragmentProofs Gen.Funcs Proofs.GenFuncsProofs Model.Pool.
+  Proofs.FrameProofs Proofs.ReaderProofs Proofs.ReaderRefine Proofs.FragmentProofs Gen.Funcs Proofs.GenHeaderProofs Proofs.GenReaderProofs Model.Pool.
 Local Open Scope N_scope.
 
 Section C03.
